@@ -1396,8 +1396,15 @@ func boundedRead(c *core.Ctx) {
 			if astx.IsFieldNamed(info, e, "readMaxBytes") {
 				return true
 			}
-			if id, ok := e.(*ast.Ident); ok && id.Name == "readMaxBytes" {
-				return true
+			// the limit handed in as a parameter (whatever it is called): an int64 parameter of this function
+			if id, ok := e.(*ast.Ident); ok {
+				if obj := info.Uses[id]; obj != nil {
+					if _, isParam := paramOf(info, fd, obj); isParam {
+						if b, isBasic := obj.Type().Underlying().(*types.Basic); isBasic && b.Kind() == types.Int64 {
+							return true
+						}
+					}
+				}
 			}
 			return false
 		}
@@ -1484,8 +1491,15 @@ func boundedRead(c *core.Ctx) {
 		var targets []ast.Node
 		if spec.decode != "" {
 			for _, call := range astx.Calls(fd.Body) {
-				if id, ok := call.Fun.(*ast.Ident); ok && id.Name == spec.decode {
-					targets = append(targets, call)
+				// the decode step is the call of the function-typed parameter (whatever it is called)
+				if id, ok := call.Fun.(*ast.Ident); ok {
+					if obj := info.Uses[id]; obj != nil {
+						if _, isParam := paramOf(info, fd, obj); isParam {
+							if _, isFunc := obj.Type().Underlying().(*types.Signature); isFunc {
+								targets = append(targets, call)
+							}
+						}
+					}
 				}
 			}
 		} else {
